@@ -8,6 +8,7 @@ HOOKS = {
 }
 ENGINES = [
     {"name": "pyvc", "path": "pyvc/", "serves_properties": ["C01","C02","C03","C10","C11","C12","C13","C14","C15","C20"], "kind_free_text": "verification-condition generator: symbolic execution of the real ast.FunctionDef nodes of /repo against sidecar functional contracts, SMT-LIB2 obligations discharged by z3 (cvc5 fallback / cross-check)"},
+    {"name": "regen", "path": "lib/gen.py", "serves_properties": ["C05", "C16", "C18"], "kind_free_text": "runs the real generator command of the working tree into scratch directories and compares / inspects its output"},
     {"name": "tables", "path": "oracle/", "serves_properties": ["C01","C02","C03","C04","C09","C10","C11","C12","C13"], "kind_free_text": "exhaustive evaluation of finite table obligations (live classes vs generator/lsp.json through an independent metamodel oracle)"},
 ]
 NOTES = "bin/check <ID>: exit 0 held, 1 violation (VIOLATION line + replay file), 2 undecided (solver unknown), 3 checker/assumption broken. See DESIGN.md."
@@ -96,5 +97,20 @@ CHECKS = {
         "text": "For every union handler and every pair of paths with different outcomes, z3 shows that no two inputs that agree on all declared keys (and differ arbitrarily on keys no alternative declares, at every expanded level) can take the two paths; the precondition of the assumed cattrs 'extra keys ignored' row (forbid_extra_keys never passed) is scanned; extras at every object node of valid values of every class are replayed natively.",
         "note": "trusted: z3/cvc5; the pyvc/jsonsym encoder (DESIGN 2.2-2.4) incl. the array (2 explicit + generic element) and object (presence bits + 'some undeclared key') abstractions; cattrs/attrs per-class rows of DESIGN 2.4 (assumed, exercised by native sweeps on every class); the metamodel oracle. Handlers outside the subset fall back to a bounded native input family (labelled).",
         "design_ref": "DESIGN.md 4, 5/C15",
+    },
+    "C05": {
+        "level": "translation_validation",
+        "technique": "run-time contract check of the plugins' postcondition on the one configuration the property quantifies over: regenerate, then AST (python) / rustfmt+byte (rust) comparison in both directions",
+        "text": "The python and rust plugins are run from the current tree into a scratch directory; every top-level statement of types.py is compared by ast.dump after docstring-whitespace normalisation, lib.rs byte-for-byte after rustfmt (edition from Cargo.toml); counts are compared so extra statements/items on either side are found. The domain is a singleton, so evaluation is complete; it is not deduction.",
+        "note": "trusted: rustfmt 1.9, python ast; the formatter for Python is assumed to change docstring whitespace only.",
+        "design_ref": "DESIGN.md 5/C05",
+        "engine": "regen",
+    },
+    "C18": {
+        "level": "proof",
+        "technique": "SMT contracts on the 22 hand-written __eq__ methods (structural equality, never raises) + structural dominance obligations on main() + finite schema<->model-class table + native replays (double load, read-back, merge, schema-violating edits x plugins)",
+        "text": "Every __eq__ of generator/model.py is symbolically executed with opaque field values and proved equal to 'same class and all structural attrs fields equal', which also rules out reads of non-fields; main() is shown to validate every model file, unconditionally and in the same loop that appends it, against a schema object whose root is constrained, before create_lsp_model and the plugin, with no write before; the schema's object definitions and type kinds are compared with the model classes; merge and read-back are evaluated on the committed model (bounded), the gate is replayed with schema-violating edits through the real command.",
+        "note": "trusted: z3/cvc5, pyvc, jsonschema, attrs constructors; merge=concatenation is evaluated on splits of the committed model, not deduced; lossless loading is the finite schema/class comparison plus attrs semantics.",
+        "design_ref": "DESIGN.md 5/C18",
     },
 }
